@@ -247,10 +247,10 @@ func checkState(o *obs, idx map[*token]idxInfo, reorgRan bool, f *findings) {
 	}
 	// limits (A.5), stated for the moment after a reorg run
 	if reorgRan {
-		if totalP > cfgGlobalSlots {
+		if totalP > o.lim.GS {
 			for s := 0; s < NS; s++ {
-				if !o.locals[s] && len(o.P[s]) > cfgAccountSlots {
-					f.add("limit-pending", "%d pending > GlobalSlots %d while non-local %s holds %d > AccountSlots %d", totalP, cfgGlobalSlots, senderNames[s], len(o.P[s]), cfgAccountSlots)
+				if !o.locals[s] && len(o.P[s]) > o.lim.AS {
+					f.add("limit-pending", "%d pending > GlobalSlots %d while non-local %s holds %d > AccountSlots %d", totalP, o.lim.GS, senderNames[s], len(o.P[s]), o.lim.AS)
 				}
 			}
 		}
@@ -260,8 +260,8 @@ func checkState(o *obs, idx map[*token]idxInfo, reorgRan bool, f *findings) {
 				nq += len(o.Q[s])
 			}
 		}
-		if nq > cfgGlobalQueue {
-			f.add("limit-queue-global", "%d queued transactions of non-local senders > GlobalQueue %d", nq, cfgGlobalQueue)
+		if nq > o.lim.GQ {
+			f.add("limit-queue-global", "%d queued transactions of non-local senders > GlobalQueue %d", nq, o.lim.GQ)
 		}
 	}
 }
@@ -333,10 +333,10 @@ func limitStable(o *obs) bool {
 		if o.locals[s] {
 			continue
 		}
-		if p > cfgGlobalSlots && len(o.P[s]) > cfgAccountSlots {
+		if p > o.lim.GS && len(o.P[s]) > o.lim.AS {
 			return false
 		}
-		if q > cfgGlobalQueue && len(o.Q[s]) > 0 {
+		if q > o.lim.GQ && len(o.Q[s]) > 0 {
 			return false
 		}
 	}
@@ -389,7 +389,7 @@ func checkTransition(pre *obs, op *opDef, res opResult, post *obs, postIdx map[*
 				st.demotions++
 			}
 		}
-		if post.locals[s] && len(post.Q[s]) > cfgAccountQueue {
+		if post.locals[s] && len(post.Q[s]) > pre.lim.AQ {
 			st.localOverCap++
 		}
 	}
@@ -427,7 +427,7 @@ func checkTransition(pre *obs, op *opDef, res opResult, post *obs, postIdx map[*
 		for _, t := range op.toks {
 			full += t.slots
 		}
-		isFull := full > cfgGlobalSlots+cfgGlobalQueue
+		isFull := full > pre.lim.GS+pre.lim.GQ
 		if isFull {
 			st.poolFull++
 		}
@@ -490,12 +490,12 @@ func checkTransition(pre *obs, op *opDef, res opResult, post *obs, postIdx map[*
 		for s := 0; s < NS; s++ {
 			if accBy[s] > 0 {
 				dirtyQ += len(pre.Q[s])
-				if !post.locals[s] && len(pre.Q[s])+accBy[s] > cfgAccountQueue {
+				if !post.locals[s] && len(pre.Q[s])+accBy[s] > pre.lim.AQ {
 					canBind = true
 				}
 			}
 		}
-		if preP+dirtyQ+accTotal > cfgGlobalSlots || preQ+accTotal > cfgGlobalQueue {
+		if preP+dirtyQ+accTotal > pre.lim.GS || preQ+accTotal > pre.lim.GQ {
 			canBind = true
 		}
 		missing := setDiff(want, postSet)
@@ -515,8 +515,8 @@ func checkTransition(pre *obs, op *opDef, res opResult, post *obs, postIdx map[*
 		}
 		// per-account queue cap: non-local senders whose queue was processed by this reorg run
 		for s := 0; s < NS; s++ {
-			if freshBy[s] > 0 && !post.locals[s] && len(post.Q[s]) > cfgAccountQueue {
-				f.add("limit-queue-account", "non-local %s holds %d queued > AccountQueue %d after its submission was processed", senderNames[s], len(post.Q[s]), cfgAccountQueue)
+			if freshBy[s] > 0 && !post.locals[s] && len(post.Q[s]) > pre.lim.AQ {
+				f.add("limit-queue-account", "non-local %s holds %d queued > AccountQueue %d after its submission was processed", senderNames[s], len(post.Q[s]), pre.lim.AQ)
 			}
 		}
 
@@ -544,7 +544,7 @@ func checkTransition(pre *obs, op *opDef, res opResult, post *obs, postIdx map[*
 				st.dropGas++
 			case pre.locals[s]:
 				f.add("local-evicted", "%s of local sender %s dropped by a head reset that leaves it valid: %s --%s--> %s", t.name, senderNames[s], pre.describe(), op.name, post.describe())
-			case preP+preQ <= cfgGlobalSlots:
+			case preP+preQ <= pre.lim.GS:
 				f.add("reset-dropped-valid", "%s dropped by a head reset that leaves it valid, no limit can bind: %s --%s--> %s", t.name, pre.describe(), op.name, post.describe())
 			default:
 				st.evictions++
@@ -560,8 +560,8 @@ func checkTransition(pre *obs, op *opDef, res opResult, post *obs, postIdx map[*
 					n++
 				}
 			}
-			if n > cfgAccountQueue {
-				f.add("limit-queue-account", "non-local %s holds %d queued (not counting demoted ones) > AccountQueue %d after a reset", senderNames[s], n, cfgAccountQueue)
+			if n > pre.lim.AQ {
+				f.add("limit-queue-account", "non-local %s holds %d queued (not counting demoted ones) > AccountQueue %d after a reset", senderNames[s], n, pre.lim.AQ)
 			}
 		}
 
@@ -704,7 +704,7 @@ func classify(pre *obs, op *opDef) string {
 			return fmt.Sprintf("op=submit(%s)", cl)
 		}
 		room := "room"
-		if pre.slots()+slots > cfgGlobalSlots+cfgGlobalQueue {
+		if pre.slots()+slots > pre.lim.GS+pre.lim.GQ {
 			room = "full"
 		}
 		if len(op.toks) != 1 {
@@ -756,7 +756,7 @@ func classify(pre *obs, op *opDef) string {
 		for _, t := range op.toks {
 			slots += t.slots
 		}
-		if slots > cfgGlobalSlots+cfgGlobalQueue {
+		if slots > pre.lim.GS+pre.lim.GQ {
 			return "op=async|ctx=full"
 		}
 		return "op=async|ctx=room"
